@@ -734,9 +734,10 @@ func isOriginMarkerRefusal(err error) bool {
 //   - an operation in which the store did not fail any call fails only in the documented way
 //     (attach: origin-marker corruption error; Remove, creation, read of a holder: never).
 //
-// An operation that reported an error may leave garbage behind: a marker of a non-holder / the
-// object without holders is accepted at the end only if the last creation/attach/Remove of that
-// provider (for the object: of some provider) reported an error.
+// An operation that reported an error after the store failed one of its calls may leave garbage
+// behind: a marker of a non-holder / the object without holders is accepted at the end only if the
+// last creation/attach/Remove of that provider (for the object: of some provider) was such an
+// operation. An attach refused by a store that did not fail must clean up after itself.
 func judge(hh vsched.Harness, x *vsched.Exec) (outcome, class, desc string) {
 	s := hh.(*h)
 	if ctx != nil && s.torn {
@@ -775,7 +776,7 @@ func judge(hh vsched.Harness, x *vsched.Exec) (outcome, class, desc string) {
 	// before that storage call: the provider counts as a holder until then.
 	releasing := map[int]bool{}
 	faultIn := map[int]bool{}    // the store failed a call of the provider's current operation
-	lastErr := map[int]bool{}    // the provider's last creation/attach/Remove reported an error
+	lastErr := map[int]bool{}    // the provider's last creation/attach/Remove failed after the store failed one of its calls
 	attachNo := map[int]int{}    // index of the provider's next attach result
 	removeNo := map[int]int{}    // ... Remove result
 	readNo := map[int]int{}      // ... read result
@@ -843,7 +844,7 @@ func judge(hh vsched.Harness, x *vsched.Exec) (outcome, class, desc string) {
 			faultIn[e.Prov] = false
 			releasing[e.Prov] = true
 		case "create-ret":
-			lastErr[e.Prov] = !e.OK
+			lastErr[e.Prov] = !e.OK && faultIn[e.Prov]
 			if e.OK {
 				holder[e.Prov] = true
 				if !shadow[obj] {
@@ -859,7 +860,7 @@ func judge(hh vsched.Harness, x *vsched.Exec) (outcome, class, desc string) {
 			// Remove after a failed creation: any answer is acceptable (the provider may or may not
 			// know the object any more)
 		case "attach-ret":
-			lastErr[e.Prov] = !e.OK
+			lastErr[e.Prov] = !e.OK && faultIn[e.Prov]
 			err := s.res[e.Prov].AttachErrs[attachNo[e.Prov]]
 			attachNo[e.Prov]++
 			if (err == nil) != e.OK {
@@ -892,7 +893,7 @@ func judge(hh vsched.Harness, x *vsched.Exec) (outcome, class, desc string) {
 				}
 			}
 		case "remove-ret":
-			lastErr[e.Prov] = !e.OK
+			lastErr[e.Prov] = !e.OK && faultIn[e.Prov]
 			err := s.res[e.Prov].RemoveErrs[removeNo[e.Prov]]
 			removeNo[e.Prov]++
 			if !e.OK && !faultIn[e.Prov] {
@@ -979,7 +980,7 @@ func judge(hh vsched.Harness, x *vsched.Exec) (outcome, class, desc string) {
 	}
 	outcome = strings.Join(parts, " ")
 	if objExists && len(holder) == 0 && !anyErr {
-		return fail("object-leaked", "no provider holds a reference at the end and every creation/attach/Remove reported success last, but the object still exists")
+		return fail("object-leaked", "no provider holds a reference at the end and no provider's last creation/attach/Remove failed because of the store, but the object still exists")
 	}
 	if !objExists && len(holder) > 0 {
 		return fail("deleted-while-referenced", "the object is gone at the end although a holder remains")
@@ -989,7 +990,7 @@ func judge(hh vsched.Harness, x *vsched.Exec) (outcome, class, desc string) {
 		m := ref(i)
 		known[m] = true
 		if final[m] && !holder[i] && !lastErr[i] {
-			return fail("stray-ref-marker", fmt.Sprintf("ref marker %s of P%d remains although P%d holds no reference and its last creation/attach/Remove reported success", m, i+1, i+1))
+			return fail("stray-ref-marker", fmt.Sprintf("ref marker %s of P%d remains although P%d holds no reference and its last creation/attach/Remove did not fail because of the store", m, i+1, i+1))
 		}
 		if !final[m] && holder[i] && !noMarkerCheck {
 			return fail("holder-without-ref-marker", fmt.Sprintf("P%d holds a reference but its marker %s is gone", i+1, m))
@@ -1008,7 +1009,7 @@ func judge(hh vsched.Harness, x *vsched.Exec) (outcome, class, desc string) {
 		// a provider keeps the object in its list after a failed Remove (documented: to allow a retry)
 		// and may keep it after a failed creation (Writable.Finish: the caller removes it)
 		if knows && !holder[i] && !lastErr[i] {
-			return fail("provider-metadata-mismatch", fmt.Sprintf("P%d holds no reference and its last operation reported success, but it still knows the object", i+1))
+			return fail("provider-metadata-mismatch", fmt.Sprintf("P%d holds no reference and its last operation did not fail because of the store, but it still knows the object", i+1))
 		}
 		if holder[i] && msg != "" {
 			return fail("held-object-unreadable", fmt.Sprintf("P%d holds a reference at the end but cannot read the object back from a store that does not fail: %s", i+1, msg))
